@@ -122,6 +122,8 @@ pub struct Ctx {
     pub tier: Tier,
     pub seed: u64,
     pub threads: usize,
+    /// generated cases per part in permille of the part's count (release lane: a fraction)
+    pub permille: u32,
 }
 
 thread_local! {
@@ -224,8 +226,9 @@ where
     }
 
     fn run(&self, ctx: &Ctx, stats: &mut Stats) -> Option<Failure> {
-        let shards = ctx.threads.max(1).min(self.cases.max(1) as usize);
-        let per = self.cases.div_ceil(shards as u32);
+        let cases = ((self.cases as u64 * ctx.permille as u64) / 1000).max(self.cases.min(64) as u64) as u32;
+        let shards = ctx.threads.max(1).min(cases.max(1) as usize);
+        let per = cases.div_ceil(shards as u32);
         let stop = AtomicBool::new(false);
         let mut results: Vec<(Stats, Option<Failure>)> = Vec::new();
         std::thread::scope(|scope| {
